@@ -69,6 +69,7 @@ class Session:
         self.live = []         # (version, plain function, cached wrapper, module dict)
         self.mem = None
         self.on_disk = None
+        self.preamble = ""     # text above the function in its file (the function's own lines stay the same)
 
     def start(self, flavour):
         memlib.fresh_process()
@@ -83,7 +84,7 @@ class Session:
             self.n_cells += 1
             ns = _define_cell(self.fs, "c12mod", "cell_%d" % self.n_cells, _src(flavour, k))
         else:
-            ns = memlib.define(self.fs, "c12mod", _src(flavour, k))
+            ns = memlib.define(self.fs, "c12mod", self.preamble + _src(flavour, k))
         f = ns["f"]
         self.live.append((k, f, self.mem.cache(f), ns))
         self.on_disk = k
@@ -315,14 +316,16 @@ def ob_nosrc(k0: int, k1: int, k2: int, a: int) -> bool:
         return H.verdict(not probs)
 
 
-def ob_persist(k: int, a: int, sessions: int) -> bool:
+def ob_persist(k: int, a: int, sessions: int, moved: int) -> bool:
     """
     pre: 0 <= k <= 2 and 0 <= a <= 1
     pre: 1 <= sessions <= 3
+    pre: 0 <= moved <= 2
     post: _
     """
     H.enter()
     kk, aa, ns_ = H.select(k, 0, 2), H.select(a, 0, 1), H.select(sessions, 1, 3)
+    mv = H.select(moved, 0, 2)        # lines added above the (unchanged) function between two sessions
     with H.native():
         flavour = H.P("flavour")
         fs = fakefs.FS()
@@ -334,6 +337,7 @@ def ob_persist(k: int, a: int, sessions: int) -> bool:
             s.define(flavour, kk)
             s.live[-1][2](aa)
             for i in range(ns_):
+                s.preamble = "import os  # added later\n" * (mv * (i + 1))
                 s.start(flavour)
                 kq, f, g, ns = s.live[-1]
                 del ns["LOG"][:]
